@@ -18,6 +18,8 @@ RULE = (
     "competed rows only (T3); (T2) non-interference on the real brew: the same table is re-run with labels flipped "
     "and features perturbed inside one fold only, with a linear SVM and with a memorising fully grown decision tree: "
     "the model that scores that fold (coefficients / pickled tree) must be bit-identical and the routing unchanged; "
+    "(T5) label-blind competition: the same table with coarse (often tied) scores is run with the labels swapped "
+    "inside every spectrum, the surviving PSM ids at PSM and peptide level must be identical; "
     "distinct = distinct (data seed, learner, fold, alpha); non-trivial = every case"
 )
 ALPHAS = [Fraction(1, 100), Fraction(1, 20), Fraction(1, 10), Fraction(1, 4), Fraction(1, 2)]
@@ -86,6 +88,58 @@ def counts_case(chk, rng):
                                             accepted_decoys=ad,
                                             clause="accepted decoys + 1 > alpha x accepted targets"))
                     return
+
+
+def label_blind_case(chk, rng):
+    """T5 on the real code: which PSMs survive the competition (PSM level) and represent each peptide must not depend
+    on the labels.  Same table, same scores (coarse, so that the target and the decoy of a spectrum often tie), labels
+    swapped inside every spectrum: the surviving PSM ids must be the same sets."""
+    import random
+
+    seed = rng.randrange(1 << 30)
+    r = random.Random(seed)
+    df, _ = simulate(r, rng.choice([60, 120]))
+    levels = rng.choice([3, 7, 30])
+    score = np.array([float(r.randint(0, levels)) for _ in range(len(df))])
+    npep = max(2, len(df) // 6)
+    df["Peptide"] = [f"PEPT{r.randrange(npep)}K" for _ in range(len(df))]     # peptides shared between spectra
+    chunk = rng.choice([None, None, 7, 25])
+    survivors = []
+    for flipped in (False, True):
+        d2 = df.copy()
+        if flipped:
+            d2["Label"] = -d2["Label"]
+        with P.workdir() as d:
+            ds = mkdata.read_dataset(mkdata.write_table(d2, d / "in.pin"))
+            out = d / "out"; out.mkdir()
+            try:
+                with P.pep_kernel(stub=True), P.chunk_sizes(**({"confidence": chunk} if chunk else {})):
+                    P.run_assign_confidence([ds], [score], out, prefixes=[None], decoys=True)
+            except Exception as e:
+                chk.reject("assign_confidence-failed:" + type(e).__name__)
+                return
+            lv = {}
+            for level in ("psms", "peptides"):
+                t = P.read_result(out / f"targets.{level}"); dd = P.read_result(out / f"decoys.{level}")
+                lv[level] = sorted(list(t["PSMId"]) + list(dd["PSMId"]))
+            survivors.append(lv)
+    ties = int(sum(1 for i in range(0, len(df), 2) if score[i] == score[i + 1]))
+    chk.case(None, (seed, "label-blind"), sample=dict(seed=seed, kind="label-blind", spectra=len(df) // 2,
+                                                      tied_spectra=ties, chunk=chunk))
+    chk.count("T5-tied-spectra", min(ties, 10))
+    chk.count("T5-chunk", str(chunk))
+    for level in ("psms", "peptides"):
+        a, b = survivors
+        if a[level] != b[level]:
+            only_a = sorted(set(a[level]) - set(b[level]))[:6]
+            only_b = sorted(set(b[level]) - set(a[level]))[:6]
+            chk.spec_violation("competition-depends-on-labels",
+                               dict(seed=seed, level=level, score_levels=levels, chunk=chunk,
+                                    survive_with_original_labels_only=only_a, survive_with_swapped_labels_only=only_b,
+                                    clause="the PSMs surviving the target-decoy competition change when the labels "
+                                           "are swapped although scores and spectra are unchanged: the competition "
+                                           "is not label-blind, so incorrect targets and decoys are not exchangeable"))
+            return
 
 
 def model_fingerprint(m):
@@ -237,11 +291,13 @@ def main(chk, args):
         counts_case(chk, chk.rng)
     for _ in range(n2):
         noninterference_case(chk, chk.rng)
+    for _ in range(6 if chk.tier == "quick" else 60):
+        label_blind_case(chk, chk.rng)
     lc = common.leanchecker("C04") if chk.tier == "thorough" else None
     chk.assumptions += [
         "PARTIAL: proved for all inputs are the mechanisms the statement names — the '+1' counting inequality of "
         "every accepted set (T1), held-out non-interference for a learner of any capacity (T2), competition before "
-        "estimation (T3). NOT proved: the expectation bound E[FDP] <= alpha for the merged, per-fold calibrated "
+        "estimation (T3), label-blind competition (T5). NOT proved: the expectation bound E[FDP] <= alpha for the merged, per-fold calibrated "
         "cross-validation output (scores of fold g depend on the labels of fold f != g; no such theorem is known on "
         "paper); the classical fixed-ranking bound is attempted separately (Props/C04Fdr.lean when present).",
         "the Monte-Carlo simulation is used only as a failing-input search when a proof or check breaks",
